@@ -86,10 +86,14 @@ func (c *checker) agedCase(cfg compCfg, idx int, rng *rand.Rand, confirm bool) s
 			r.Inconclusive("forwarder-flush-watchdog")
 			return false
 		}
+		recs := u.rec.snapshot()
+		if timedOut(recs) {
+			r.Inconclusive("forwarder-client-timeout")
+			return true
+		}
 		r.Eval(1)
 		r.Event("aged_items_"+phase, 1)
 		as := fr.attempts()
-		recs := u.rec.snapshot()
 		maps, events := cap.snapshot()
 		var desc []string
 		for _, a := range as {
